@@ -470,11 +470,11 @@ example : CfgOK ⟨20700, (23, 59, 59, 999999999)⟩ := ⟨⟨by decide, by deci
 
 /-- the hypotheses of `roundtrip_text_divQuot` hold of a journal with a code, a description with blanks, an empty
     comment, an `@` price, a `=` total with negative amounts and an implicit amount -/
-def sample2 : List Char :=
+def sample3 : List Char :=
   "2024-03-01T12:00:00.5+02:00 (c) 'd  e\n ;\n a 1.50 X @ 2.0 Y\n b -3 Z = -4.5 Y\n c\n".toList
 
 set_option maxRecDepth 40000 in
-example : (match parseJournal utc sample2 with
+example : (match parseJournal utc sample3 with
     | some rs => (acceptJournal lax rs).isOk
     | none => false) = true := by decide
 
@@ -489,7 +489,7 @@ example : LayoutOK crlfLayout := by
   refine ⟨?_, ?_, ?_, ?_, ?_, ?_, ?_, ?_, ?_, ?_⟩ <;> simp [crlfLayout, Blanks, isSpace, IsEol]
 
 set_option maxRecDepth 40000 in
-example : (match parseJournal utc sample2 with
+example : (match parseJournal utc sample3 with
     | some rs => (match acceptJournal lax rs with
         | .ok (ts, st') =>
           decide (acceptText utc lax (printL Layout.identity divQ ts) = .ok (ts, st')) &&
